@@ -201,6 +201,9 @@ def modelLine (s : State) (line : String) : State × String :=
     match parseReset r with
     | some s0 => (s0, "ok e=- resp=- " ++ showState s0)
     | none => (s, "bad-op")
+  | "coinswap" :: "ghost" :: _ =>
+    -- an execution on a context that is thrown away: the state is what it was
+    (s, "ghost " ++ showState s)
   | ["coinswap", "export"] =>
     let g := CoinswapGenesis.exportGenesis s
     (s, s!"ok validate={validateWord g} {showGenesis g}")
@@ -251,6 +254,13 @@ def runMonitor (prop : String) (ops obs : Array String) : IO Unit := do
         if prop == "C12" then
           for c in indexFails o s do
             out.putStrLn s!"mon {prop} FAIL clause={c} line={i+1}"; fails := fails + 1
+      | none => out.putStrLn s!"mon {prop} FAIL clause=obs-parse line={i+1}"; fails := fails + 1
+    | "coinswap" :: "ghost" :: _ =>
+      match parseState o blocked with
+      | some post =>
+        if showState post != showState pre then
+          out.putStrLn s!"mon {prop} FAIL clause=ghost-visible line={i+1}"; fails := fails + 1
+        pre := post
       | none => out.putStrLn s!"mon {prop} FAIL clause=obs-parse line={i+1}"; fails := fails + 1
     | ["coinswap", "export"] =>
       -- C12: the exported genesis of a reachable state passes ValidateGenesis
